@@ -4,6 +4,8 @@
   helper lemmas: Lemmas/Join.lean, Lemmas/K8sMultiline.lean).
 -/
 import FileD.Lemmas.Join
+import FileD.Lemmas.JoinTemplate
+import FileD.Lemmas.JoinStreams
 namespace FileD.PropsC15
 open FileD FileD.Join FileD.SpecC15
 
@@ -41,5 +43,85 @@ example :
       [(lineEv [120] false false).out, (lineEv [65, 98, 99] false false).out,
        (lineEv [121] false false).out, (lineEv [65, 98] false false).out] := by
   constructor <;> rfl
+
+
+/-- **join_template = join with the template classifiers** (corollary of `join_eq_spec`).
+    The templates' `StartCheck` / `ContinueCheck` functions are taken as ORACLES (one start bit
+    and one continue bit per configured template and event); what is modelled is the wrapper:
+    `firstCheck` picks the first template whose start check accepts and makes it current,
+    `nextCheck` asks the current template and applies its `Negate`. For every selection of
+    templates and every call sequence: the wrapper never indexes `templates[-1]` (no panic), and
+    its outputs are the run-grouping spec of the plain events `resolve` computes. -/
+theorem join_template_eq_spec (tcfg : TCfg) (items : List TIn) (hs : Shaped tcfg items)
+    (ht : timely tcfg.join false (resolve tcfg (-1) items) = true) :
+    (∃ st, (trun tcfg TSt.init items).fin = .ok st) ∧
+    downstream (trun tcfg TSt.init items).outs = spec tcfg.join (resolve tcfg (-1) items) ∧
+    (trun tcfg TSt.init items).outs.map (·.res) =
+      specResults tcfg.join false (resolve tcfg (-1) items) := by
+  have hcur : CurOK tcfg TSt.init := by intro h; simp [TSt.init, St.init] at h
+  obtain ⟨h1, h2⟩ := trun_eq tcfg items TSt.init hcur hs
+  obtain ⟨⟨st, hst⟩, hd, hr⟩ := join_eq_spec tcfg.join (resolve tcfg (-1) items) ht
+  have h1' : (trun tcfg TSt.init items).outs = (run tcfg.join St.init (resolve tcfg (-1) items)).outs := h1
+  have h2' : (match (trun tcfg TSt.init items).fin with
+      | .ok s => (.ok s.j : GoM St)
+      | .error p => .error p) = (run tcfg.join St.init (resolve tcfg (-1) items)).fin := h2
+  refine ⟨?_, by rw [h1', hd], by rw [h1', hr]⟩
+  rw [hst] at h2'
+  cases hf : (trun tcfg TSt.init items).fin with
+  | ok s => exact ⟨s, rfl⟩
+  | error p => rw [hf] at h2'; simp at h2'
+
+-- non-vacuity: two templates (the second negated, like go_data_race); "S1" starts template 1,
+-- the next line is NOT a finish line of template 1 so it continues, the finish line closes the run
+example :
+    let tcfg : TCfg := ⟨[[108, 111, 103]], 0, [false, true]⟩
+    let ev (s : Bytes) (st ct : List Bool) : TIn := .ev ⟨0, .obj [([108, 111, 103], .str s)], st, ct⟩
+    let items := [ev [83] [false, true] [false, false], ev [97] [false, false] [false, false],
+                  ev [61] [false, false] [false, true]]
+    Shaped tcfg items ∧ timely tcfg.join false (resolve tcfg (-1) items) = true ∧
+    (spec tcfg.join (resolve tcfg (-1) items)).map (·.root) =
+      [.obj [([108, 111, 103], .str [83, 97])], .obj [([108, 111, 103], .str [61])]] := by
+  refine ⟨?_, rfl, rfl⟩
+  intro e he
+  simp at he
+  rcases he with rfl | rfl | rfl <;> simp
+
+/-- **no cross-stream merge** (per action instance). The instance sees an interleaving of
+    several streams' events and time-outs, each tagged with its stream. HYPOTHESIS `coherent`
+    (from C02/C04: a stream is owned by one processor, and a processor with a busy action takes
+    its next event with `blockGet` from the stream of the event that made it busy): while a run
+    is open, the next call belongs to the run's stream. Then for EVERY stream `s` what the
+    instance sends on for `s` is exactly the run-grouping spec of `s`'s own calls — no event of
+    another stream is ever part of a joined event of `s`, whatever the interleaving. -/
+theorem no_cross_stream_merge (cfg : Cfg) (items : List In)
+    (hc : coherent cfg none items = true) (ht : timely cfg false items = true) (s : Nat) :
+    (downstream (run cfg St.init items).outs).filter (fun o => o.tag == s) =
+      spec cfg (items.filter (fun x => tagOf x == s)) := by
+  rw [(join_eq_spec cfg items ht).2.1]
+  exact (emit_filter cfg s items).1 hc
+
+-- non-vacuity: stream 1 runs "A b", stream 2's "b" arrives only after stream 1's run is closed
+example :
+    let e (t : Nat) (s : Bytes) (st ct : Bool) : In := .ev ⟨t, .obj [([108, 111, 103], .str s)], st, ct⟩
+    let items := [e 1 [65] true false, e 1 [98] false true, e 1 [120] false false,
+                  e 2 [98] false true, e 2 [65] true false, .timeout 2]
+    coherent logCfg none items = true ∧ timely logCfg false items = true ∧
+    (spec logCfg (items.filter (fun x => tagOf x == 1))).map (·.root) =
+      [.obj [([108, 111, 103], .str [65, 98])], .obj [([108, 111, 103], .str [120])]] := by
+  refine ⟨rfl, rfl, rfl⟩
+
+/-- the hypothesis is needed: without coherence a continuation line of another stream IS merged -/
+theorem no_cross_stream_merge_needs_coherence :
+    ∃ (cfg : Cfg) (items : List In), timely cfg false items = true ∧ coherent cfg none items = false ∧
+      (downstream (run cfg St.init items).outs).filter (fun o => o.tag == 1) ≠
+        spec cfg (items.filter (fun x => tagOf x == 1)) := by
+  refine ⟨logCfg, [.ev ⟨1, .obj [([108, 111, 103], .str [65])], true, false⟩,
+                   .ev ⟨2, .obj [([108, 111, 103], .str [98])], false, true⟩,
+                   .ev ⟨1, .obj [([108, 111, 103], .str [120])], false, false⟩], rfl, rfl, ?_⟩
+  intro h
+  have := congrArg (fun l => l.map (fun o => (asString ((JTree.dig o.root [[108, 111, 103]]).getD .null)).length)) h
+  simp [run, step, doEvent, logCfg, JTree.dig, JTree.lookup, JTree.isStr, flushThen, flush, isNextOK,
+    appendBuff, downstream, Out.down, St.init, Ev.out, spec, segs, classify, openRun, takeOrphans, emit,
+    joined, joinedValue, value, fits, setPath, setFirst, asString, tagOf] at this
 
 end FileD.PropsC15
